@@ -41,7 +41,7 @@ def main():
             pid = meta.get("property") or next(iter(evals.values())).get("property")
             rel = os.path.relpath(d, root).replace("/SEED/", "-").replace("/", "-")
             name = rel if rel.startswith(("C", "M")) else "%s-%s" % (pid, rel)
-            rounds = {"seed": "r1", "seed2": "r2", "seed3": "r3", "seed4": "r4", "seed5": "r5"}
+            rounds = {"seed": "r1", "seed2": "r2", "seed3": "r3", "seed4": "r4", "seed5": "r5", "seed6": "r6"}
             base = os.path.basename(root.rstrip("/"))
             if base in rounds:
                 name = rounds[base] + "-" + name
@@ -63,7 +63,9 @@ def main():
                 shutil.copyfile(os.path.join(d, "seeded_demo_test.go"), os.path.join(dst, "seeded_demo_test.go"))
             runs = {}
             for k, e in evals.items():
-                runs[k] = {"checks": {c: {"exit": v["exit"], "wall_s": v["wall_s"], "output_head": v["head"][:6]} for c, v in (e.get("checks") or {}).items()},
+                if k in ("eval-final.json", "eval-final2.json") and ("eval-final3.json" in evals):
+                    continue  # superseded full passes
+                runs[k] = {"checks": {c: ({"exit": v["exit"], "wall_s": v["wall_s"], "output_head": [l[:300] for l in v["head"][:4]]} if v["exit"] != 0 else {"exit": 0, "wall_s": v["wall_s"]}) for c, v in (e.get("checks") or {}).items()},
                            "caught_by": e.get("caught_by"), "inconclusive": e.get("inconclusive")}
             m = {
                 "id": name,
